@@ -204,6 +204,40 @@ def _loop_calls(ctx: Ctx, f: Func, loop: ast.For, quals: Set[str], on_loopvar: b
     return False
 
 
+def _every_item_handled(ctx: Ctx, f: Func, loop: ast.For, quals: Set[str]) -> bool:
+    """Every normal path through the loop body calls one of `quals` on the loop variable (a child that is neither moved
+    nor removed - skipped by a condition or a `continue` - stays below a node that is about to be unregistered)."""
+    lv = {x.id for x in ast.walk(loop.target) if isinstance(x, ast.Name)}
+
+    def call_here(st: ast.stmt) -> bool:
+        if isinstance(st, (ast.If, ast.For, ast.While, ast.Try, ast.With)):
+            return False
+        for c in ast.walk(st):
+            if isinstance(c, ast.Call) and {g.qualname for g, _ in ctx.env.callees(f, c)} & quals and {x.id for x in ast.walk(c) if isinstance(x, ast.Name)} & lv:
+                return True
+        return False
+
+    def handled(block: List[ast.stmt]) -> bool:
+        for st in block:
+            if call_here(st):
+                return True
+            if isinstance(st, ast.If):
+                if st.orelse and handled(st.body) and handled(st.orelse):
+                    return True
+                # a branch that leaves the iteration without handling the item
+                for blk in (st.body, st.orelse):
+                    if blk and isinstance(blk[-1], (ast.Continue, ast.Break)) and not handled(blk):
+                        return False
+            elif isinstance(st, (ast.With, ast.Try)):
+                if handled(st.body):
+                    return True
+            elif isinstance(st, (ast.Continue, ast.Break)):
+                return False
+        return False
+
+    return handled(loop.body)
+
+
 def _iter_is_post_order(ctx: Ctx, f: Func, it: ast.AST) -> Tuple[bool, str]:
     """The iterated expression is a complete post-order descendant walk of self
     (or a materialised copy of any complete walk)."""
@@ -288,7 +322,7 @@ def must(ctx: Ctx) -> List[Ob]:
     def _children_handled(n: N) -> bool:
         if si.calls_resolving_to(n, ["Node.remove_children"]):
             return True
-        if n.kind == "iter" and _loop_calls(ctx, f, n.ast, {"Node.move_to"}):
+        if n.kind == "iter" and _loop_calls(ctx, f, n.ast, {"Node.move_to"}) and _every_item_handled(ctx, f, n.ast, {"Node.move_to", "TypedNode.move_to", "Node.remove"}):
             return True
         return False
 
@@ -755,8 +789,21 @@ def guard_cycle(ctx: Ctx) -> List[Ob]:
                 pi = ctx.model.parent_of(n.ast)
                 if not isinstance(pi, ast.If) or not any(isinstance(x, ast.Raise) for st in pi.body for x in ast.walk(st)):
                     return False
-                txt = norm(n.ast)
-                return f"{newp} is self" in txt or f"self is {newp}" in txt or "add_self=True" in txt
+                # the self test refuses on its own: a top-level disjunct of the refusal's condition, not one that
+                # only counts together with something else (`self._children and (p is self or ...)` lets a leaf through)
+                from .util import split_cond
+
+                def disjuncts(e: ast.AST) -> List[ast.AST]:
+                    if isinstance(e, ast.BoolOp) and isinstance(e.op, ast.Or):
+                        return [d for v in e.values for d in disjuncts(v)]
+                    return [e]
+
+                for d in disjuncts(n.ast):
+                    txt = norm(d)
+                    if txt in (f"{newp} is self", f"self is {newp}") or ("add_self=True" in txt and not isinstance(d, ast.BoolOp)):
+                        return True
+                # nested form: `if c:` ... enclosing tests are conjuncts as well
+                return False
 
             ok2 = cfg.dominated_by(t, self_guard)
             obs.append(ctx.ob("GUARD-CYCLE", ["C01", "C13"], f, f"{norm(node)}: the ancestry refusal also covers the node itself", node, ok2,
